@@ -43,6 +43,30 @@ func runTZProbe(c *Ctx) {
 		o := compileEval(src, in)
 		fmt.Printf("TZPROBE\t%s\t%s\n", src, canonOutcome(o, nil))
 	}
+	// un-overridden clock: the readings must be UTC readings whatever the process zone is
+	for try := 0; try < 3; try++ {
+		t0 := time.Now().UTC()
+		now := compileEval("now().toString()", in)
+		today := compileEval("today().toString()", in)
+		tod := compileEval("timeOfDay().toString()", in)
+		t1 := time.Now().UTC()
+		if t0.Minute() != t1.Minute() {
+			continue // straddled a minute boundary; read again
+		}
+		str := func(o Outcome) string {
+			if o.Err != nil || o.Panicked || len(o.Coll) != 1 {
+				return "?"
+			}
+			s, _ := o.Coll[0].(system.String)
+			return string(s)
+		}
+		n := str(now)
+		fmt.Printf("TZPROBE\tnow() offset\t%v\n", strings.HasSuffix(n, "Z") || strings.HasSuffix(n, "+00:00"))
+		fmt.Printf("TZPROBE\tnow() is the UTC reading\t%v\n", strings.HasPrefix(n, t0.Format("2006-01-02T15:04")))
+		fmt.Printf("TZPROBE\ttoday() is the UTC date\t%v\n", str(today) == t0.Format("2006-01-02"))
+		fmt.Printf("TZPROBE\ttimeOfDay() is the UTC time\t%v\n", strings.HasPrefix(str(tod), t0.Format("15:04")))
+		break
+	}
 	c.Emit("noop", "x", false)
 }
 
@@ -110,6 +134,18 @@ func runC04(c *Ctx) {
 			_, err := fhirpath.Compile("Patient." + p + "()")
 			c.Law(err != nil, "C04/function-leaked", "a function registered through an option exists only in the expression being compiled", "after history "+strings.Join(callToks, "|")+": Patient."+p+"()", "compiled")
 		}
+		// ... and so does a later Compile that enables the experimental table
+		for _, p := range []string{"f1", "f2"} {
+			_, err := fhirpath.Compile("Patient."+p+"()", compopts.WithExperimentalFuncs())
+			c.Law(err != nil, "C04/function-leaked", "a function registered through an option exists only in the expression being compiled", "after history "+strings.Join(callToks, "|")+": Compile(Patient."+p+"(), WithExperimentalFuncs())", "compiled")
+		}
+		if e, err := fhirpath.Compile("Patient.name.given.join(',')", compopts.WithExperimentalFuncs()); err == nil {
+			o := safeEval(func() (system.Collection, error) { return e.Evaluate([]fhir.Resource{mustResource(`{"resourceType":"Patient","name":[{"given":["a","b"]}]}`)})
+			})
+			c.Law(canonOutcome(o, nil) == canonOutcome(Outcome{Coll: system.Collection{system.String("a,b")}}, nil), "C04/experimental-altered", "the experimental table is the same in every Compile", "after history "+strings.Join(callToks, "|")+": Patient.name.given.join(',') with WithExperimentalFuncs()", canonOutcome(o, nil))
+		} else {
+			c.Law(false, "C04/experimental-altered", "the experimental table is the same in every Compile", "after history "+strings.Join(callToks, "|")+": Compile(Patient.name.given.join(','), WithExperimentalFuncs())", err.Error())
+		}
 	}
 	// built-ins can be neither replaced nor altered
 	_, err := fhirpath.Compile("1", fhirpath.WithFunction("where", good))
@@ -143,6 +179,16 @@ func runC04(c *Ctx) {
 			if err != nil {
 				continue
 			}
+			jobs = append(jobs, job{e, src, ri})
+		}
+	}
+	// the same compiled expression against resources of different types (relative paths)
+	for _, src := range []string{"id", "meta.versionId", "text.status", "identifier.value", "extension.url", "name", "status", "contained.id", "meta.lastUpdated.toString()", "descendants().count()"} {
+		e, err := fhirpath.Compile(src)
+		if err != nil {
+			continue
+		}
+		for ri := range resources {
 			jobs = append(jobs, job{e, src, ri})
 		}
 	}
